@@ -181,7 +181,8 @@ def generate(seed, tier):
                           c['f']]
             else:
                 c['f'] = ['op', '+', ['f', 'ISERROR', lit], c['f']]
-            points.append({'kind': 'reflit', 'cell': i, 'id': k})
+            points.append({'kind': 'reflit', 'cell': i, 'id': k,
+                           'qual': fr.pick(REF_QUALIFIERS)})
     n = len(points)
     er = Rng(seed, 'subsets')
     if n <= t['enum']:
@@ -218,6 +219,12 @@ def generate(seed, tier):
 
 
 # -------------------------------------------------------------- instantiation
+# what is left of the sheet part when Excel turns a reference into #REF!
+REF_QUALIFIERS = [None, None, 'Gone!', "'Q1 data'!", "'Bob''s data'!",
+                  "'it''s ''x'''!", '[1]Gone!', "'[old book.xlsx]Gone'!",
+                  "'[3]Bob''s'!"]
+
+
 def instantiate(world, points, on):
     """Concrete world for the fault vector ``on`` (set of point indices)."""
     w = copy.deepcopy(world)
@@ -228,7 +235,10 @@ def instantiate(world, points, on):
     def fix(e):
         if e[0] == 'rl':
             k, p = by_id[e[1]]
-            return ['e', '#REF!'] if k in on else ['n', 0]
+            if k not in on:
+                return ['n', 0]
+            return ['e', '#REF!', p['qual']] if p.get('qual') else \
+                ['e', '#REF!']
         if e[0] in ('op', 'f'):
             e = e[:2] + [fix(x) for x in e[2:]]
             if e[0] == 'f' and e[1].startswith('@FF'):
